@@ -155,12 +155,7 @@ example : sliceWrap [((0 : Int), 'a'), (6 * 3600000000, 'b'), (18 * 3600000000, 
 
 /-! ### stitching a list of series at increasing upper bounds -/
 
-/-- the hypotheses under which the property speaks about stitching: as many series as bounds (at least two),
-    bounds in non-decreasing order -/
-structure Stitchable (dfs : List TS) (ub : List Int) : Prop where
-  len : dfs.length = ub.length
-  two : 2 ≤ ub.length
-  inc : nonDecreasing ub = true
+/- `Stitchable dfs ub` (PygProofs/Lemmas/SliceLemmas.lean): as many series as bounds, at least two, bounds non-decreasing. -/
 
 example : Stitchable [[(0, some 1), (5, some 2)], [], [(1, some 7), (9, none)]] [4, 6, 10] :=
   ⟨rfl, by decide, rfl⟩
